@@ -357,7 +357,105 @@ TRUNC = {
     'SURFEDGES': 'surfedges', 'LEAFS': 'visleafs', 'FACES': 'faces', 'ORIGINALFACES': 'orig_faces',
     'TEXDATA_STRING_TABLE': 'textures', 'PRIMITIVES': 'primitives', 'BRUSHSIDES': 'brushes', 'TEXDATA': 'texinfo',
 }
-CORRUPTIONS = ['trunc:' + n for n in TRUNC] + ['sprp_version', 'sprp_size', 'tex_offset', 'ents_unclosed', 'dprp_type']
+# Failures injected into the LAST thing a dependent view reads, i.e. after the views it pulls in were parsed successfully
+# (bmodels -> nodes/faces/ents + PHYSCOLLIDE, props -> visleafs + records, overlays/water -> texinfo, faces -> planes, ...).
+LATE = {
+    'phys_dup': 'bmodels', 'phys_kv_bad': 'bmodels', 'phys_kv_nonascii': 'bmodels', 'phys_trunc': 'bmodels',
+    'phys_model_index': 'bmodels', 'sprp_leaf_index': 'props', 'sprp_model_index': 'props',
+    'overlay_texinfo_index': 'overlays', 'water_texinfo_index': 'water_leaf_info', 'face_plane_index': 'faces',
+    'node_leaf_index': 'nodes', 'leaf_brush_index': 'visleafs', 'side_texinfo_index': 'brushes',
+    'trunc:EDGES': 'surfedges', 'trunc:PRIMVERTS': 'primitives', 'trunc:OVERLAY_FADES': 'overlays',
+}
+TRUNC.update({'EDGES': 'surfedges', 'PRIMVERTS': 'primitives', 'OVERLAY_FADES': 'overlays'})
+CORRUPTIONS = (['trunc:' + n for n in TRUNC] + ['sprp_version', 'sprp_size', 'tex_offset', 'ents_unclosed', 'dprp_type']
+               + [k for k in LATE if not k.startswith('trunc:')])
+
+
+def corrupt_world(kind: str, param: int, w: dict):
+    """Corruptions expressed on the (resolved) world before encoding.  Returns (view, description) or None if the kind
+    is a byte-level one.  Missing prerequisites are created (a second brush model with its entity, a water entry...)."""
+    import copy
+    if kind not in LATE or kind.startswith('trunc:'):
+        return None
+    view = LATE[kind]
+    big = 20000 + param
+    if kind.startswith('phys_'):
+        if len(w['models']) < 2:            # a brush entity that owns a model, so that the entity lump matters
+            w['models'] = w['models'] + [copy.deepcopy(w['models'][0])]
+            w['ents'] = w['ents'] + [{'kv': [['classname', 'func_brush'], ['targetname', 'late'], ['model', '*1']], 'outs': []}]
+        phys = [dict(p) for p in w['phys']] or [{'model': len(w['models']) - 1, 'solids': ['00ff'], 'kv': 'solid\n{\n"index" "0"\n}\n'}]
+        if kind == 'phys_dup':
+            phys.append(dict(phys[param % len(phys)]))          # two physics sections for one brush model
+        elif kind == 'phys_kv_bad':
+            phys[-1]['kv'] = 'solid\n{\n"index" "0"\n'              # block never closed
+        elif kind == 'phys_kv_nonascii':
+            phys[-1]['kv'] = None                                   # marker, bytes are patched after encoding
+        elif kind == 'phys_model_index':
+            phys.append(dict(phys[-1], model=big))                  # section for a brush model that does not exist
+        w['phys'] = phys
+        return view, 'PHYSCOLLIDE'
+    if kind in ('sprp_leaf_index', 'sprp_model_index'):
+        return view, 'sprp'                                         # patched after encoding
+    if kind == 'overlay_texinfo_index':
+        if not w['overlays']:
+            return corrupt_world('phys_dup', param, w)
+        w['overlays'] = [dict(o) for o in w['overlays']]
+        w['overlays'][-1]['ti'] = big
+        return view, 'OVERLAYS'
+    if kind == 'water_texinfo_index':
+        w['water'] = [list(x) for x in w['water']] + [[1.0, 0.0, big]]
+        return view, 'LEAFWATERDATA'
+    if kind == 'face_plane_index':
+        if not w['faces']:
+            return corrupt_world('phys_dup', param, w)
+        w['faces'] = [dict(f) for f in w['faces']]
+        w['faces'][-1]['plane'] = big
+        return view, 'FACES'
+    if kind == 'node_leaf_index':
+        w['nodes'] = [dict(n) for n in w['nodes']]
+        w['nodes'][-1]['ch'] = [w['nodes'][-1]['ch'][0], -1 - big]
+        return view, 'NODES'
+    if kind == 'leaf_brush_index':
+        w['leafs'] = [dict(lf) for lf in w['leafs']]
+        w['leafs'][-1]['brushes'] = list(w['leafs'][-1]['brushes']) + [big]
+        return view, 'LEAFBRUSHES'
+    if kind == 'side_texinfo_index':
+        if not any(b[1] for b in w['brushes']):
+            return corrupt_world('phys_dup', param, w)
+        w['brushes'] = copy.deepcopy(w['brushes'])
+        next(b for b in reversed(w['brushes']) if b[1])[1][-1][1] = big
+        return view, 'BRUSHSIDES'
+    raise HarnessError(kind)
+
+
+def corrupt_late_bytes(kind: str, param: int, w: dict, lumps: dict, game: list) -> None:
+    """Second half of the world-level corruptions that are easier on the encoded bytes."""
+    if kind == 'phys_trunc':
+        idx = G.LUMP_INDEX['PHYSCOLLIDE']
+        lumps[idx]['data'] = lumps[idx]['data'][:-16 - param % 3]      # sentinel section missing
+    elif kind == 'phys_kv_nonascii':
+        idx = G.LUMP_INDEX['PHYSCOLLIDE']
+        d = bytearray(lumps[idx]['data'])
+        d[-18] = 0xE9                                                   # inside the last keyvalues text
+        lumps[idx]['data'] = bytes(d)
+    elif kind in ('sprp_leaf_index', 'sprp_model_index'):
+        g = next(g for g in game if g['id'] == b'sprp')
+        sp = dict(w['sprp'])
+        props = [dict(p) for p in sp['props']]
+        if not props:
+            g['version'] = 99
+            return
+        if kind == 'sprp_leaf_index':
+            props[-1]['leaves'] = list(props[-1]['leaves']) + [20000 + param]
+            sp['props'] = props
+            g['data'] = G.encode_sprp(sp, G.FAM[G.LAYOUTS[w['layout']].fam]['propleaf'])
+        else:
+            vnum, size = G.SPRP_VERSIONS[sp['ver']]
+            d = bytearray(g['data'])
+            struct.pack_into('<H', d, len(d) - size + 24, 20000 + param)   # model index of the last record
+            g['data'] = bytes(d)
+
+
 
 
 def corrupt(kind: str, param: int, w: dict, lumps: dict, game: list):
@@ -399,13 +497,24 @@ def execute_failing(desc, ctx) -> None:
     from srctools.bsp import BSP
     from srctools.tokenizer import TokenSyntaxError
     w = G.resolve_world(desc['world'])
-    lumps, game = G.encode_world(w)
     kind = desc['kind']
-    view, where = corrupt(kind, desc['param'], w, lumps, game)
-    if view is None:        # needs a prop the world does not have: damage the lump header version instead
-        kind = 'sprp_version'
+    late = corrupt_world(kind, desc['param'], w)
+    if late is not None and late[0] != LATE[kind]:
+        kind = 'phys_dup'                       # prerequisite missing in this world: fell back
+    if late is not None and kind == 'phys_kv_nonascii':
+        w['phys'][-1]['kv'] = 'solid\n{\n"index" "0"\n"name" "abcdefgh"\n}\n'
+    lumps, game = G.encode_world(w)
+    if late is not None:
+        view, where = late
+        corrupt_late_bytes(kind, desc['param'], w, lumps, game)
+    else:
         view, where = corrupt(kind, desc['param'], w, lumps, game)
+        if view is None:        # needs a prop the world does not have: damage the lump header version instead
+            kind = 'sprp_version'
+            view, where = corrupt(kind, desc['param'], w, lumps, game)
     ctx.label('corrupt:' + kind)
+    if kind in LATE:
+        ctx.label('failing:dependent_view_late')
     ctx.label('layout:' + w['layout'])
     blob = G.write_container(G.LAYOUTS[w['layout']], lumps, game, w['revision'], gl_dummy=w['gl_dummy'], gl_pad=w['gl_pad'])
     l4d2 = G.LAYOUTS[w['layout']].l4d2
@@ -435,6 +544,8 @@ def execute_failing(desc, ctx) -> None:
                     getattr(bsp, v)
                 except (struct.error, ValueError, IndexError, KeyError, TokenSyntaxError, AssertionError) as exc:
                     raised = type(exc).__name__
+                    if kind in LATE:
+                        ctx.label(f'late:{view}:{raised}')
             ctx.label('raised:' + (raised or 'nothing'))
             ctx.nontrivial(raised is not None)
             facts = {'kind': kind, 'view': view, 'raised': raised, 'layout': w['layout']}
@@ -566,10 +677,12 @@ SUBCHECKS = [
             'has:brushes', 'has:phys', 'dprp:type2', 'dprp:type3', 'access:repeat')),
     Sub('container', execute_synth, strategy=strat_container, quick=400, thorough=8000, quick_shards=4,
         thorough_shards=16, floor=5, must_hit=_LAYOUT_LABELS + ('access:none', 'lzma', 'lzma:nondefault', 'gl_lzma', 'has:opaque')),
-    Sub('failing_access', execute_failing, strategy=strat_failing, quick=400, thorough=8000, quick_shards=4,
+    Sub('failing_access', execute_failing, strategy=strat_failing, quick=500, thorough=8000, quick_shards=4,
         thorough_shards=16, floor=100, must_hit=_LAYOUT_LABELS + (
             'corrupt:sprp_version', 'corrupt:trunc:PLANES', 'corrupt:trunc:TEXINFO', 'corrupt:trunc:LEAFS', 'corrupt:tex_offset',
-            'corrupt:ents_unclosed', 'raised:error', 'raised:ValueError', 'history:same_object_look_save_look_save')),
+            'corrupt:ents_unclosed', 'raised:error', 'raised:ValueError', 'history:same_object_look_save_look_save',
+            'failing:dependent_view_late', 'corrupt:phys_dup', 'corrupt:phys_kv_bad', 'corrupt:phys_trunc',
+            'late:bmodels:ValueError', 'late:props:IndexError', 'late:overlays:IndexError')),
 ]
 
 MATCHERS = {}
